@@ -67,6 +67,22 @@ class D(RenderDriver):
     def is_nontrivial(self, st, feats, meta):
         return st["nonempty"] >= 10
 
+    def check_doc(self, doc, res, rng, feats=None, meta=None, ndigits=3):
+        r = super().check_doc(doc, res, rng, feats, meta, ndigits=ndigits)
+        if r:
+            # "fill-opacity ... multiply into the path's opacity": no separate fill-/stroke-opacity is left on an output path
+            import re
+
+            bump(res["counters"], "outputs_checked_for_merged_opacity")
+            for m in re.finditer(r"<path\b[^>]*>", r[1]):
+                mm = re.search(r'\b(fill-opacity|stroke-opacity)="([^"]*)"', m.group(0))
+                if mm and mm.group(2) not in ("1", "1.0"):
+                    res["viol"].append(dict(rule="opacity_not_merged", sig="opacity_not_merged",
+                                            msg=f"output path keeps {mm.group(0)} instead of multiplying it into its opacity: {m.group(0)[:200]}\nSOURCE: {doc}",
+                                            replay={"kind": "doc", "doc": doc, "ndigits": ndigits}))
+                    break
+        return r
+
     def classify(self, doc, out, mismatch, meta):
         eng = self.engine_fault(doc, out)
         if eng:
